@@ -1,3 +1,5 @@
+pub mod c02;
 pub mod catalogue;
+pub mod cf;
 pub mod decl;
 pub use decl::*;
